@@ -4,7 +4,8 @@
    that must be followed by sanitise before checked operations resume.                                  *)
 EXTENDS RegTable
 
-CONSTANTS MaxCorrupt, BlockLens, TableIds, MaxLevel
+CONSTANTS MaxCorrupt, BlockLens, TableIds, MaxLevel,
+          Reads       \* TRUE: also block reads and range iterations (C03) from every state
 
 VARIABLE cdepth          \* words corrupted since the last sanitise
 mcvars == <<vars, cdepth>>
@@ -46,6 +47,8 @@ MCNext ==
           \/ Clean(\E h \in 0..NR(d) - 1, isSet \in BOOLEAN : \E v \in Vals[i][h + 1] : Bit(h, d.regs[h + 1].ty, v, isSet))
           \/ Clean(\E addr \in Window(d), n \in BlockLens : \E ws \in {s \in SeqsUpTo(IF n = 1 THEN WordsOf(i) ELSE {0, 1, 65535, Word2[i]}, n) : Len(s) = n} : BlockWrite(addr, ws))
           \/ Clean(\E h \in 0..NR(d) : Get(h))
+          \/ (Reads /\ Clean(\E addr \in Window(d), n \in 0..4 : BlockRead(addr, n)))
+          \/ (Reads /\ Clean(\E addr \in Window(d), off \in 0..4, s \in {<<>>, <<1>>, <<-1>>, <<0, 1>>, <<0, -1>>, <<0, 0, -1>>} : Foreach(addr, off, s)))
           \/ (Sanitise /\ cdepth' = 0)
           \/ (cdepth < MaxCorrupt /\ \E addr \in Window(d), w \in {0, 65535, 1} : Corrupt(addr, w) /\ cdepth' = cdepth + 1))
 MCSpec == MCInit /\ [][MCNext]_<<mcvars, ev>>
